@@ -4,7 +4,7 @@
 -/
 import Kskm.KsrPolicy
 import KskmProofs.Lemmas.Res
-namespace Kskm
+namespace Kskm.C06L
 
 /-! ### duplicate bundle ids -/
 
@@ -446,4 +446,4 @@ theorem checkNewKey_eq (req : Request) (pol : RequestPolicy) (key : Key) :
           | ok m => simp only []; repeat' (first | rfl | split)
       · rfl
 
-end Kskm
+end Kskm.C06L
